@@ -283,3 +283,24 @@ async fn pump_output_stream(
             .await;
     }
 }
+
+/// Verification-only: the real pump over a caller-supplied reader (chosen chunkings).
+#[cfg(rip_verif)]
+pub(super) async fn verif_pump_output_stream(
+    stream: Box<dyn tokio::io::AsyncRead + Unpin + Send>,
+    stream_kind: ToolTaskStream,
+    task_id: &str,
+    emitter: &TaskEmitter,
+    writer: &mut TaskLogWriter,
+    max_preview_bytes: usize,
+) {
+    pump_output_stream(
+        Some(stream),
+        stream_kind,
+        task_id,
+        emitter,
+        writer,
+        max_preview_bytes,
+    )
+    .await
+}
